@@ -650,7 +650,67 @@ def heterogeneous_joint_case(ctx, rng, idx):
             return
 
 
+def truncated_tail_case(ctx, rng, idx):
+    """truncated Gaussian far in the tail (mean 4 to 12 standard deviations
+    below zero: a population concentrated just above zero), sampled through
+    every route that reaches the sampler - integer seed, Generator seed,
+    inside a composite, under a covariate model that shifts the mean there:
+    samples are finite, inside the support and follow the scored density"""
+    from scipy.special import log_ndtr
+    route = ['integer', 'generator', 'composed', 'covariate',
+             'reduced'][idx % 5]
+    sigma = float(rng.uniform(0.3, 2.0))
+    ratio = -float(rng.uniform(4.0, 12.0))
+    mu = ratio * sigma
+    n = 4000 if ctx.tier == 'quick' else 40000
+    seed = int(rng.integers(1, 2 ** 31))
+    feats = {'family': 'truncated_tail', 'route': route,
+             'mean_over_sd': round(ratio, 1)}
+    ctx.case(('truncated_tail', route, int(ratio)), True,
+             sample=dict(feats, mu=mu, sigma=sigma))
+    try:
+        t = chi.TruncatedGaussianModel()
+        if route == 'integer':
+            x = t.sample([mu, sigma], n_samples=n, seed=seed)
+        elif route == 'generator':
+            x = t.sample([mu, sigma], n_samples=n,
+                         seed=np.random.default_rng(seed))
+        elif route == 'composed':
+            m = chi.ComposedPopulationModel([chi.PooledModel(), t])
+            x = np.asarray(m.sample([1.0, mu, sigma], n_samples=n,
+                                    seed=seed))[:, 1:]
+        elif route == 'reduced':
+            m = chi.ReducedPopulationModel(chi.ComposedPopulationModel(
+                [t, chi.PooledModel()]))
+            m.fix_parameters({m.get_parameter_names()[-1]: 1.0})
+            x = np.asarray(m.sample([mu, sigma], n_samples=n,
+                                    seed=seed))[:, :1]
+        else:
+            m = chi.CovariatePopulationModel(
+                t, chi.LinearCovariateModel(n_cov=1))
+            m.set_population_parameters([[0, 0]])
+            beta = -float(rng.uniform(1, 3))
+            c_ = (mu - 0.5) / beta      # 0.5 + beta * c = mu
+            x = m.sample([0.5, sigma, beta], n_samples=n, seed=seed,
+                         covariates=[c_])
+        x = np.asarray(x, dtype=float).ravel()
+    except Exception as e:      # noqa
+        ctx.violation_exc('sample_raises', e, {'case': feats}, feats)
+        return
+    ctx.count('tail_samples', len(x))
+    if len(x) != n or not np.all(np.isfinite(x)) or np.any(x < 0):
+        ctx.violation('samples_inside_support', 'tail_samples_outside:T',
+                      {'n': len(x), 'non_finite': int(np.sum(
+                          ~np.isfinite(x))), 'negative': int(np.sum(x < 0)),
+                       'case': feats}, feats)
+        return
+    # cdf of the truncated Gaussian, evaluated with log survival functions
+    u = 1.0 - np.exp(log_ndtr(-(x - mu) / sigma) - log_ndtr(mu / sigma))
+    _ks(ctx, u, 'T:tail:' + route, feats, {'mu': mu, 'sigma': sigma})
+
+
 FAMILIES = [
+    Family('truncated_tail', truncated_tail_case, quick=40, thorough=200),
     Family('heterogeneous_joint', heterogeneous_joint_case, quick=24,
            thorough=120),
     Family('default_size', default_size_case, quick=60, thorough=600),
